@@ -501,7 +501,7 @@ def _parse_release_id_part(release_id, prefix=""):
         release_type = None
         for type_ in RELEASE_TYPES:
             # Try to find a known release type.
-            if release_id.endswith(type_):
+            if release_id.endswith("-%s" % type_):
                 release_type = type_
                 break
 
@@ -509,12 +509,15 @@ def _parse_release_id_part(release_id, prefix=""):
             # Found, remove it from the parsed string (because there could be a
             # dash causing problems).
             release_id = release_id[:-len(release_type)]
-
-        short, version, release_type_extracted = release_id.rsplit("-", 2)
-
-        # If known release type is found, use it; otherwise fall back to the
-        # one we parsed out.
-        release_type = release_type or release_type_extracted
+            short, version, _ = release_id.rsplit("-", 2)
+        elif is_valid_release_type(release_id.rsplit("-", 1)[-1]):
+            # Unknown release type: fall back to the one we parsed out.
+            short, version, release_type = release_id.rsplit("-", 2)
+        else:
+            # The last part can not be a release type (e.g. a numeric version),
+            # so the short name contains dashes and the type is implicit.
+            short, version = release_id.rsplit("-", 1)
+            release_type = "ga"
     result = {
         "short": short,
         "version": version,
